@@ -6,6 +6,9 @@ use gc_arena::{Collect, collect::Trace};
 
 pub type Id = u32;
 
+/// Token ids handed out by the harness stay far below this.
+pub const MAX_TOK: usize = 1 << 24;
+
 /// Panic payload of every injected fault.
 pub struct Injected;
 /// Panic payload the harness uses to abandon a run from inside a callback.
@@ -35,6 +38,8 @@ struct Log {
     /// destructor faults: Some(n) = the n-th destructor run by a collection method from now unwinds
     drop_fault_in: Option<u32>,
     drop_faulted: Vec<Id>,
+    /// destructors that ran on something that is not a token (id, context)
+    garbage: Vec<(Id, u8)>,
 }
 
 static mut LOG: Option<Log> = None;
@@ -43,7 +48,7 @@ fn log() -> &'static mut Log {
     unsafe {
         if LOG.is_none() {
             let _p = seam::pause();
-            LOG = Some(Log { counts: vec![], events: vec![], ticks: 0, armed: vec![], fired: 0, trace_sites: vec![], record_sites: false, protected: vec![], drop_fault_in: None, drop_faulted: vec![] });
+            LOG = Some(Log { counts: vec![], events: vec![], ticks: 0, armed: vec![], fired: 0, trace_sites: vec![], record_sites: false, protected: vec![], drop_fault_in: None, drop_faulted: vec![], garbage: vec![] });
         }
         LOG.as_mut().unwrap()
     }
@@ -62,6 +67,7 @@ pub fn begin_run() {
     l.protected.clear();
     l.drop_fault_in = None;
     l.drop_faulted.clear();
+    l.garbage.clear();
 }
 
 /// A value whose destruction is observable. Every payload with a destructor carries one.
@@ -73,6 +79,13 @@ impl Drop for Tok {
         let _p = seam::pause();
         let l = log();
         let id = self.0 as usize;
+        if id >= MAX_TOK {
+            // no token with such an id was ever made: a destructor is running on memory that was
+            // never initialised (fresh blocks are filled with 0xCD) or that has been released (0xDD)
+            let (ctx, _) = seam::ctx();
+            l.garbage.push((self.0, ctx));
+            return;
+        }
         if l.counts.len() <= id {
             l.counts.resize(id + 1, 0);
         }
@@ -104,6 +117,12 @@ impl Drop for Tok {
 pub fn arm_drop_fault(n: u32) {
     log().drop_fault_in = Some(n.max(1));
 }
+/// Destructors that ran on memory holding no token since the last call.
+pub fn take_garbage_drops() -> Vec<(Id, u8)> {
+    let _p = seam::pause();
+    std::mem::take(&mut log().garbage)
+}
+
 /// Tokens whose destructor unwound since the last call.
 pub fn take_drop_faulted() -> Vec<Id> {
     let _p = seam::pause();
